@@ -4,6 +4,8 @@ using namespace vf;
 
 namespace {
 
+void nop_cb(void *) {}
+
 void case_impl(Ctx &c, bool late) {
   Sim s(c); World w(s);
   s.nodeid = (uint8_t)(1 + c.t.below(127));
@@ -85,7 +87,15 @@ void case_impl(Ctx &c, bool late) {
     } else if (op == 4) { // write 1006h
       if (mode == 4) continue;
       uint32_t nc = gen_cycle(true);
+      // re-timing a running producer needs no second timer slot: in a third of these writes application timers occupy the rest of the pool
+      // (decided from values already drawn, no tape choice)
+      std::vector<int16_t> fill;
+      if (running && (s.nodeid + steps) % 3 == 0) {
+        s.api_begin(); for (int g = 0; g < 64 && s.timers_used() < (int)s.ntmr; g++) { int16_t id = COTmrCreate(&s.node->Tmr, 400000000u, 0, nop_cb, nullptr); if (id < 0) break; fill.push_back(id); } s.api_end("COTmrCreate");
+        CHECK(c, s.timers_used() == (int)s.ntmr, "harness", "could not fill the timer pool"); c.cls("re-timed-with-no-spare-timer-slot");
+      }
       uint32_t code = cl.write(0x1006, 0, nc, 4);
+      if (!fill.empty()) { s.api_begin(); for (int16_t id : fill) COTmrDelete(&s.node->Tmr, id); s.api_end("COTmrDelete"); }
       int verdict;   // 0 accept, 1 refuse, 2 either (1006h := 0 while producing)
       if (mcob & 0x40000000u) { if (nc == 0) verdict = 2; else if (nc < res_us) verdict = 1; else verdict = 0; } else verdict = 0;
       VLOG(c, "1006h := %u us -> %08X", nc, code);
